@@ -42,6 +42,11 @@ pub enum SubscriptionRequest {
     Delete {
         responder: oneshot::Sender<Result<(), DeleteError>>,
     },
+    /// Sent by the subscription actor to itself once it has been detached from its topic.
+    FinishDelete {
+        result: Result<(), DeleteError>,
+        responder: oneshot::Sender<Result<(), DeleteError>>,
+    },
     GetStats {
         responder: oneshot::Sender<Result<SubscriptionStats, GetStatsError>>,
     },
@@ -81,6 +86,9 @@ pub(crate) struct SubscriptionActor {
 
     /// Whether the subscription has been marked as deleted.
     deleted: bool,
+
+    /// A sender for the actor's own mailbox (weak, so the actor does not keep itself alive).
+    sender: mpsc::WeakSender<SubscriptionRequest>,
 }
 
 impl SubscriptionActor {
@@ -126,6 +134,7 @@ impl SubscriptionActor {
             outstanding: OutstandingMessageTracker::new(),
             next_ack_id: AckId::new(1),
             deleted: false,
+            sender: sender.downgrade(),
         };
 
         tokio::spawn(async move {
@@ -181,7 +190,12 @@ impl SubscriptionActor {
                 let _ = responder.send(result);
             }
             SubscriptionRequest::Delete { responder } => {
-                let result = self.delete().await;
+                self.begin_delete(responder);
+            }
+            SubscriptionRequest::FinishDelete { result, responder } => {
+                if result.is_ok() {
+                    self.finish_delete();
+                }
                 let _ = responder.send(result);
             }
             SubscriptionRequest::GetStats { responder } => {
@@ -325,10 +339,18 @@ impl SubscriptionActor {
         Ok(())
     }
 
-    /// Marks the subscription as deleted. Further requests will be no-ops.
-    async fn delete(&mut self) -> Result<(), DeleteError> {
+    /// Marks the subscription as deleted (further requests will be no-ops) and detaches it
+    /// from its topic.
+    ///
+    /// The actor must not wait for the topic inside this turn: the topic actor may itself be
+    /// waiting for room in this actor's mailbox (it posts published messages to it), and the
+    /// two would wait for each other forever. The detaching therefore runs in a task of its
+    /// own, and the deletion is completed by `finish_delete` when that task reports back
+    /// through the mailbox; until then the actor keeps receiving (and ignoring) requests.
+    fn begin_delete(&mut self, responder: oneshot::Sender<Result<(), DeleteError>>) {
         if self.deleted {
-            return Ok(());
+            let _ = responder.send(Ok(()));
+            return;
         }
 
         self.deleted = true;
@@ -336,15 +358,28 @@ impl SubscriptionActor {
         crate::verif_ev!("sub {} delete.begin", self.internal_id);
 
         // If the topic is still around, remove ourselves from it's list of subscriptions.
-        if let Some(topic) = self.topic.upgrade() {
-            topic
-                .remove_subscription(self.info.name.clone())
-                .await
-                .map_err(|e| match e {
-                    RemoveSubscriptionError::Closed => DeleteError::Closed,
-                })?;
+        match (self.topic.upgrade(), self.sender.upgrade()) {
+            (Some(topic), Some(sender)) => {
+                let name = self.info.name.clone();
+                tokio::spawn(async move {
+                    let result = topic.remove_subscription(name).await.map_err(|e| match e {
+                        RemoveSubscriptionError::Closed => DeleteError::Closed,
+                    });
+                    drop(topic);
+                    let _ = sender
+                        .send(SubscriptionRequest::FinishDelete { result, responder })
+                        .await;
+                });
+            }
+            _ => {
+                self.finish_delete();
+                let _ = responder.send(Ok(()));
+            }
         }
+    }
 
+    /// Completes the deletion once the subscription is no longer attached to its topic.
+    fn finish_delete(&mut self) {
         self.delegate.delete(&self.info.name);
         self.observer.notify_deleted();
         self.outstanding.clear();
@@ -354,8 +389,6 @@ impl SubscriptionActor {
         self.push_registry.set(self.info.name.clone(), None);
         #[cfg(deltio_verif)]
         crate::verif_ev!("sub {} delete.end", self.internal_id);
-
-        Ok(())
     }
 
     /// Gets the stats for the subscription.
